@@ -296,7 +296,7 @@ def executor_outcome(key, args):
         cls = defining_class(ex, info, fn)
         return ex.run_function(info, bound, f.__globals__, cls, None, bound.get("self"))
 
-    results = interp.explore(w, body, key + "#diff", {}, max_paths=8)
+    results = interp.explore(w, body, key + "#diff", {}, max_paths=64)
     live = [r for r in results if r.outcome != "infeasible"]
     if len(live) != 1:
         return {"kind": "error", "why": f"{len(live)} paths on concrete input"}
